@@ -161,7 +161,7 @@ func c05Gen(r *rand.Rand, id int) ([][]database.Command, []c05Step) {
 			}
 		}
 	}
-	if id%50 == 9 {
+	if id%50 == 9 && id < 300 {
 		// a history longer than twice the cache's capacity (1000 entries): 2100 distinct requests, then every one of them again
 		var ws []string
 		seen := map[string]bool{}
